@@ -60,11 +60,13 @@ def run_step(lab, which):
     m.run(until=lambda: True, sleep=0)
 
 
-def drain(lab, h, maxrounds=60):
+def drain(lab, h, maxrounds=60, after_step=None):
     for i in range(maxrounds):
         for o in (0, 1, 2):
             try:
                 run_step(lab, o)
+                if after_step:
+                    after_step()
             except BaseException as ex:
                 if type(ex).__name__ in ("PathAbort", "Inconclusive", "Unsupported", "StepBudget"):
                     raise
@@ -123,7 +125,34 @@ def _factory(params, env=None):
                 last = at
             F.active = True
             lab.notifications.clear()
-            drain(lab, h)
+            second = {"done": False}
+
+            def edit_while_retrying():
+                # the user saves the same file again right after the fault hit, before the engine's retry
+                if params.get("edit_after_fault") and F.fired and not second["done"]:
+                    if first and not lab.p[first[0]].connected:
+                        return           # the account is reachable for its user only once the client is connected again: try after a later step
+                    second["done"] = True
+                    was = F.active
+                    F.active = False
+                    try:
+                        tgt = {"create_b": "write_b", "write_a": "write_a", "create_d_a": "write_d_a", "rename_a_b": "write_b", "move_a_d": "write_d_a"}.get(first[1] if first else None)
+                        if tgt:
+                            sd = first[0]
+                            i2 = lab.user(lambda: lab.p[sd].info_path(lab.roots[sd] + "/" + "/".join(tgt.split("_")[1:])))
+                            before2 = None
+                            if i2:
+                                b2 = io.BytesIO()
+                                lab.user(lambda: lab.p[sd].download(i2.oid, b2))
+                                before2 = b2.getvalue()
+                            d2 = h.user(sd, tgt, b"second-save")
+                            if d2[0] == "write":
+                                live[d2[2]] = d2[1]
+                                if before2 is not None:
+                                    live.pop(before2, None)
+                    finally:
+                        F.active = was
+            drain(lab, h, after_step=edit_while_retrying)
             F.active = False
             if len(F.fired) < nf:
                 return {"ok": True, "key": None, "nontrivial": False}      # the run has fewer provider calls than the chosen index
@@ -276,6 +305,9 @@ def jobs(tier):
                 if not q:
                     out.append({"harness": "faults", "params": {"flavour": f, "nops": 1, "faults": 2, "maxat": 14, "first": [side, op]},
                                 "label": "%s/1-op/2-faults/first=%d:%s" % (f, side, op)})
+                if op in ("create_b", "write_a", "create_d_a"):
+                    out.append({"harness": "faults", "params": {"flavour": f, "nops": 1, "faults": 1, "maxat": 30, "first": [side, op], "edit_after_fault": True},
+                                "label": "%s/1-op/1-fault+edit-while-retrying/first=%d:%s" % (f, side, op)})
                 if f == "oid" or not q:
                     out.append({"harness": "faults", "params": {"flavour": f, "nops": 2, "faults": 1, "maxat": 24 if q else 40, "first": [side, op]},
                                 "label": "%s/2-ops/1-fault/first=%d:%s" % (f, side, op)})
